@@ -513,7 +513,9 @@ theorem step_life (C : Crypto) (w : World) (op : Op) : Life w.gw (step C w op).g
               have := callContract_life C w1 _ _ _ _ _ _ w2 rs evs pd hc
               rw [hg] at this
               exact this
-            · exact .refl _
+            · split
+              · exact .of_eq hg
+              · exact .refl _
   | callback id =>
     simp only [step, callback]
     split
